@@ -302,10 +302,15 @@ class StopEvent(Event):
         # include _result in serialization for base StopEvent
         if self._result is not None:
             data["result"] = self._result
+        # include _data (dynamic fields), as DictLikeModel does
+        if self._data:
+            data["_data"] = self._data
         return data
 
     def __repr__(self) -> str:
-        dict_items = {**self._data, **self.model_dump()}
+        dumped = self.model_dump()
+        dumped.pop("_data", None)
+        dict_items = {**self._data, **dumped}
         # Format as key=value pairs
         parts = [f"{k}={v!r}" for k, v in dict_items.items()]
         dict_str = ", ".join(parts)
